@@ -24,9 +24,9 @@ var guardedByTable = []struct {
 	{"jrpc2", "NumHash", "nreads", "", "read budget of the cached head"},
 	{"jrpc2", "NumHash", "Num", "", "cached head number"},
 	{"jrpc2", "NumHash", "Hash", "", "cached head hash"},
-	{"jrpc2", "NumHash", "once", "", "poller start guard; replaced under the lock in get"},
+	{"jrpc2", "NumHash", "started", "", "poller start flag; reset under the lock in get"},
 	{"eth", "Tx", "PrecompHash", "cacheMut", "transaction hash memo, read by (*Tx).Hash under cacheMut"},
-	{"shovel", "Manager", "restart", "running", "stop channel of the current generation; replaced by Run under running"},
+	{"shovel", "Manager", "restart", "restartMut", "stop channel of the current generation; closed and replaced by Restart, read by Run"},
 }
 
 func propC18(c *Ctx) {
@@ -525,63 +525,8 @@ func propC18GuardedBy(c *Ctx, res *Resolver) {
 			w.Field(r.short, r.typ, r.mutex)
 		}
 	}
-	lsCache := map[*ssa.Function]map[ssa.Instruction]lockState{}
-	locks := func(fn *ssa.Function) map[ssa.Instruction]lockState {
-		if v, ok := lsCache[fn]; ok {
-			return v
-		}
-		v := Locksets(fn, nil)
-		lsCache[fn] = v
-		return v
-	}
-	var heldAt func(fn *ssa.Function, in ssa.Instruction, base ssa.Value, mutex string, depth int) (bool, string)
-	heldAt = func(fn *ssa.Function, in ssa.Instruction, base ssa.Value, mutex string, depth int) (bool, string) {
-		k := accessPath(base)
-		if mutex != "" {
-			if k.Path != "" {
-				k.Path += "."
-			}
-			k.Path += mutex
-		}
-		st := locks(fn)[in]
-		if st[k] {
-			return true, "holds " + k.String()
-		}
-		// caller summary: base rooted at a parameter
-		if p, ok := k.Root.(*ssa.Parameter); ok && depth < 3 {
-			callers := res.CallersOf(fn)
-			if len(callers) == 0 {
-				return false, "lockset " + stateString(st) + ", no callers to summarise"
-			}
-			for _, cs := range callers {
-				args := cs.Common().Args
-				idx := paramIndex(p)
-				if cs.Common().IsInvoke() {
-					idx--
-				}
-				if idx < 0 || idx >= len(args) {
-					return false, "caller arity"
-				}
-				// the caller must hold the same relative path on its argument
-				arg := args[idx]
-				sub := base
-				_ = sub
-				ck := accessPath(arg)
-				rel := k.Path
-				if ck.Path != "" && rel != "" {
-					rel = ck.Path + "." + rel
-				} else if ck.Path != "" {
-					rel = ck.Path
-				}
-				cst := locks(cs.Parent())[cs]
-				if !cst[LockKey{ck.Root, rel}] {
-					return false, fmt.Sprintf("lockset %s; caller %s does not hold the lock either (%s)", stateString(st), fnName(cs.Parent()), stateString(cst))
-				}
-			}
-			return true, "every caller holds the lock (summary)"
-		}
-		return false, "lockset here " + stateString(st)
-	}
+	oracle := newLockOracle(res)
+	locks := oracle.locks
 	nAcc := 0
 	for _, fn := range w.RepoFuncs() {
 		if takesTestingTB(fn) {
@@ -607,7 +552,7 @@ func propC18GuardedBy(c *Ctx, res *Resolver) {
 				}
 				nAcc++
 				perField[f.Name()]++
-				held, why := heldAt(fn, ref, fa.X, row.mutex, 0)
+				held, why := oracle.HeldAt(fn, ref, fa.X, row.mutex)
 				kind := "read"
 				switch x := ref.(type) {
 				case *ssa.Store:
